@@ -988,7 +988,17 @@ func (c *FnCtx) loopHead(fr *Frame, li *loopInfo, st *State) {
 			o.Desc = "automatic frame invariant holds on loop entry for " + k
 		}
 	}
+	// call counters only ever go up: whatever the loop does to them, they are at least what they were on entry
+	preCalls := map[string]string{}
+	for _, k := range c.eng.compOrder {
+		if strings.HasPrefix(k, "ghost$calls$") && (mods.comps[k]) {
+			preCalls[k] = c.heapGet(st, k)
+		}
+	}
 	c.havocSet(st, mods, fmt.Sprintf("loop%d", li.ordinal))
+	for k, pre := range preCalls {
+		c.assume(st, "(>= "+c.heapGet(st, k)+" "+pre+")")
+	}
 	if c.spec != nil {
 		// lastcall(F) of a tracked callee that the loop body calls: at an arbitrary iteration it is whatever the previous
 		// iteration's call returned, not the value from before the loop
